@@ -54,10 +54,11 @@ def run(pid, tier):
     for i in range(nhist):
         size = rnd.choice(['tiny', 'small', 'small', 'small', 'medium'])
         c = pgen.make_case(rnd.randrange(1 << 30), size)
-        if i % 20 == 19:
-            # a long-tour history: 25-60 jobs on few vehicles without tight constraints
+        long_history = i % 20 == 19 and i < (120 if tier == 'quick' else 480)
+        if long_history:
+            # a long-tour history: 25-60 jobs on few vehicles without tight constraints (every state is large: few of them, 40 steps)
             c = pgen.long_tours(pgen.make_case(rnd.randrange(1 << 30), 'large', features={'unreachable': False, 'breaks': False, 'multishift': False, 'pd': True}))
-        c['steps'] = steps
+        c['steps'] = min(steps, 40) if long_history else steps
         c['threads'] = rnd.choice([1, 2, 4])
         c['seed'] = rnd.randrange(1 << 30)
         cases.append(c)
